@@ -68,7 +68,13 @@ class Notifications(object):
         await self._maybe_notify()
 
     async def on_block(self, touched, height):
-        self._touched_bp.setdefault(height, set()).update(touched)
+        pending = self._touched_bp.setdefault(height, set())
+        pending.update(touched)
+        # After a reorg to a lower height nothing will be reported at the greater heights
+        # again; carry over what is waiting there
+        for waiting in (self._touched_mp, self._touched_bp):
+            for old in [h for h in waiting if h > height]:
+                pending.update(waiting.pop(old))
         self._highest_block = height
         await self._maybe_notify()
 
